@@ -16,6 +16,9 @@ func TestC17CASFilesImmutable(t *testing.T) {
 		cfg := drawWorldConfig(rt)
 		cfg.Actions = 2
 		spec := drawDAG(rt)
+		if cfg.CaseInsensitive {
+			spec.decollide()
+		}
 		c := newFakeCAS()
 		mat := materialize(c, spec)
 		before := c.snapshot()
@@ -51,7 +54,7 @@ func TestC17CASFilesImmutable(t *testing.T) {
 			"upload": func(rt *rapid.T) {
 				st := g.upload(rt)
 				if st != nil {
-					if d, ok := r.modelDir(st.Path); !ok || !d.children[st.Name].cas {
+					if d, ok := r.modelDir(st.Path); !ok || !r.get(d, st.Name).cas {
 						st = nil // only CAS-backed files here: nothing may be written to the CAS
 					}
 				}
